@@ -146,6 +146,13 @@ class Check:
             "configuration": (self.facts.config if self.facts is not None else None),
             "not_analysed": "features ut1/python (crates absent offline), cfg(kani) code, no_std build",
         }
+        try:
+            from .sym import COVERED
+            extra_cov = set(self.extra.pop("_covered_in_workers", []))
+            allc = sorted(COVERED | extra_cov)
+            cov["functions_interpreted"] = {"count": len(allc), "keys": allc}
+        except Exception:
+            pass
         cov.update(self.extra)
         ev = {
             "property_id": self.pid,
